@@ -34,7 +34,9 @@ def cases(tier):
         ent = vm.calculator(name, icut, N)
         nco = len(vm.coordinates(ent))
         devs = [()]
-        if tier == 'thorough': devs += [((c, 2),) for c in range(nco)]      # letter E+5 on every coordinate
+        # letter E+5 on every coordinate; not on crystals with origin states: their comparison is limited by the k-mesh accuracy of
+        # the bare bias correction, which a +5 letter degrades to the size of the changes under test (RECTM, B2 at base G2)
+        if tier == 'thorough' and not vm.has_vb(ent): devs += [((c, 2),) for c in range(nco)]
         nodes = [(b, d) for b in ('T', 'G1', 'G2', 'G1L') for d in devs]
         # one exchange class alone in the large-omega2 regime (crystals with several exchange classes)
         nT2 = len(vm.class_keys(ent)['T2'])
